@@ -98,8 +98,10 @@ func sim(casesPath, obsPath string) {
 			opts = append(opts, evalopts.EnvVariable(name, c))
 		}
 		snap := lib.TakeSnapshot([]proto.Message{mr1, mr4}, colls)
-		out := lib.EvalOutcome(forest, g.Text, lib.AsResources(mr1), nil, opts)
-		if err := w.Write(map[string]any{"id": g.ID, "ast": g.Ast, "src": g.Text, "out": out, "kind": "sim", "mut": snap.Report()}); err != nil {
+		out, out2 := lib.EvalTwice(forest, g.Text, lib.AsResources(mr1), nil, func() []fhirpath.EvaluateOption { return opts })
+		mut := snap.Report()
+		mut["reeval_differs"] = !lib.SameOutcome(out, out2)
+		if err := w.Write(map[string]any{"id": g.ID, "ast": g.Ast, "src": g.Text, "out": out, "kind": "sim", "mut": mut}); err != nil {
 			lib.Fatal("%v", err)
 		}
 	})
@@ -195,8 +197,10 @@ func main() {
 			opts = append(opts, evalopts.EnvVariable("n", system.Integer(g.N)))
 		}
 		snap := lib.TakeSnapshot([]proto.Message{mr1, mr4}, colls)
-		out := lib.EvalOutcome(forest, g.Text, lib.AsResources(mr1), nil, opts)
-		if err := w.Write(map[string]any{"id": g.ID, "cs": g.Cs, "src": g.Text, "out": out, "kind": "prog", "mut": snap.Report()}); err != nil {
+		out, out2 := lib.EvalTwice(forest, g.Text, lib.AsResources(mr1), nil, func() []fhirpath.EvaluateOption { return opts })
+		mut := snap.Report()
+		mut["reeval_differs"] = !lib.SameOutcome(out, out2)
+		if err := w.Write(map[string]any{"id": g.ID, "cs": g.Cs, "src": g.Text, "out": out, "kind": "prog", "mut": mut}); err != nil {
 			lib.Fatal("%v", err)
 		}
 	})
